@@ -1,6 +1,6 @@
 /* c08_chunking.c - C08: behaviour depends on the byte stream, not on how it is cut into input calls.
  * Bounded-exhaustive, differential: streams = every concatenation of 1..3 (thorough 1..4) messages of a
- * 14-message alphabet (queries, two units, block with embedded NL and ';', quoted string with embedded ';',
+ * 16-message alphabet (queries, two units, block with embedded NL and ';', quoted string with embedded ';',
  * quoted string with embedded NL, empty units, CR LF, undefined header, missing parameter, dangling comma,
  * trailing blanks, number with exponent, common + compound), optionally followed by an unterminated unit.
  * Schedules = EVERY partition for streams of <= 14 bytes, otherwise every partition with <= 2 cut points,
@@ -13,9 +13,12 @@
  */
 #include "msgtab.h"
 
-static const char * msgs[] = {
-    "Q1?\n", "AAAA:Bb;Ee\n", "BLK #15a\n;bc\n", "TXT? \"a;b\"\n", "TXT \"a\nb\"\n", ";;\n", "Q2?\r\n", "ZZ:YY\n", "I2 1\n", "I2 1,\n",
-    "OPT 5  \n", "DBL? 1.5e3\n", "*XY?;:AAAA:Cc12\n", "Q1?\r",
+#define MSG(s) { s, sizeof (s) - 1 }
+static const struct { const char * p; size_t n; } msgs[] = {
+    MSG("Q1?\n"), MSG("AAAA:Bb;Ee\n"), MSG("BLK #15a\n;bc\n"), MSG("TXT? \"a;b\"\n"), MSG("TXT \"a\nb\"\n"), MSG(";;\n"), MSG("Q2?\r\n"), MSG("ZZ:YY\n"), MSG("I2 1\n"), MSG("I2 1,\n"),
+    MSG("OPT 5  \n"), MSG("DBL? 1.5e3\n"), MSG("*XY?;:AAAA:Cc12\n"), MSG("Q1?\r"),
+    MSG("IB 7,#15a\n;b\n\n"),                       /* block with embedded NL and ; as SECOND parameter */
+    MSG("BLK #16\x01\x00\x02\x00\n\x00\n"),     /* NUL bytes (and a NL) inside a block */
 };
 #define NMSG ((int) (sizeof msgs / sizeof msgs[0]))
 #define M_QUOTED_NL 4
@@ -134,7 +137,7 @@ int main(int argc, char ** argv) {
                 if (k == K && K > 3 && t > 0) continue;
                 if (k >= 3 && t > 1 && !mc_thorough) continue;
                 if (!MC_CASE()) continue;
-                for (i = 0; i < k; i++) { n += sprintf(s + n, "%s", msgs[idx[i]]); if (idx[i] == M_QUOTED_NL) qnl = 1; }
+                for (i = 0; i < k; i++) { memcpy(s + n, msgs[idx[i]].p, msgs[idx[i]].n); n += (int) msgs[idx[i]].n; if (idx[i] == M_QUOTED_NL) qnl = 1; }
                 n += sprintf(s + n, "%s", tails[t]);
                 mc_case_tag = "stream"; mc_case_s[0] = (const unsigned char *) s; mc_case_n[0] = (size_t) n;
                 check_stream(s, n, qnl);
